@@ -23,6 +23,10 @@ def ref_apply(L, op):
         return L + [(args[0], args[1])], ("ok", None)
     if name in ("extend", "extend_md", "extend_dict", "extend_kw"):
         return L + list(args[0]), ("ok", None)
+    if name in ("fork_append", "fork_pop0"):
+        return L, ("ok", None)              # a container built from this one is changed: this one is not
+    if name == "forked_append":
+        return L + [(args[0], args[1])], ("ok", None)   # this one is changed: the container built from it is not
     if name == "setitem":
         k, v = args
         if k not in ks:
@@ -93,6 +97,22 @@ def real_apply(m, op):
             r = m.extend(list(args[0]))
         elif name == "extend_md":
             r = m.extend(type(m)(list(args[0])))        # another multi-dict of the same class as argument
+        elif name == "fork_append":
+            other = type(m)(m)
+            other.append(args[0], args[1])
+            r = None
+        elif name == "fork_pop0":
+            other = m.copy()
+            if len(other):
+                other.pop()
+            r = None
+        elif name == "forked_append":
+            before = list(m)
+            other = type(m)(m)
+            m.append(args[0], args[1])
+            for obs in observers(other, before):
+                return ("raise", f"the container built from this one changed: {obs[0]} is {obs[1]}, expected {obs[2]}")
+            r = None
         elif name == "extend_dict":
             r = m.extend(dict(args[0]))
         elif name == "extend_kw":
@@ -227,6 +247,7 @@ def op_universe():
     for i in (0, 1, -1, -2, 5):
         ops.append(("insert", i, (("a", 6),)))
         ops.append(("insert", i, (("b", 6), ("a", 7))))
+    ops += [("fork_append", "a", 3), ("fork_pop0",), ("forked_append", "a", 3)]   # a second container built from this one
     ops.append(("insert", 0, (("a", 6), ("a", 7))))       # one call carrying the same (possibly new) key twice
     ops.append(("insert", 1, (("b", 8), ("a", 9), ("b", 9))))
     return ops
@@ -242,7 +263,7 @@ def run_history(cls, hist):
             L2, want = ref_apply(L, op)
             got = real_apply(m, op)
             if want[0] == "ok" and op[0] in ("append", "extend", "extend_md", "extend_dict", "extend_kw", "update_dict", "update_kw",
-                                             "setitem", "delitem", "update", "discard", "clear",
+                                             "fork_append", "fork_pop0", "forked_append", "setitem", "delitem", "update", "discard", "clear",
                                              "insert", "insert_before", "insert_after"):
                 want = ("ok", None)
             if got != want:
